@@ -183,6 +183,7 @@ RevCodes(t, i, c, acc) ==                    \* i counts symbols taken from the 
     ELSE LET c2 == PushCodeRev(c, RankOf(A, t[Len(t) + 1 - i]), B, q)
          IN  RevCodes(t, i + 1, c2, IF i >= q THEN Append(acc, c2) ELSE acc)
 CodeLemmas == phase = "idle" =>
+    /\ Legal(Sigma, q) /\ (Sigma = 1 => \A qq \in {1, 64, 65, 200} : Legal(1, qq)) /\ ~Legal(2, 65) /\ ~Legal(3, 33)
     /\ \A g1 \in AllGrams : \A g2 \in AllGrams : Code(A, g1) = Code(A, g2) => g1 = g2        \* injective
     /\ \A g \in AllGrams : Code(A, g) < TableSize("bits", Sigma, q)
     /\ FwdCodes(text, 1, 0, << >>) = [i \in 1..NGrams(text, q) |-> Code(A, FwdGrams(text, q)[i])]
